@@ -350,7 +350,9 @@ def _empty_input_stream() -> bytes:
 
 def _classify(data: bytes) -> str:
     """Independent (pyarrow-only) verdict on a byte string: 'valid1' iff one complete, fully valid single-batch stream."""
-    src = io.BytesIO(data)
+    # A sentinel tail tells "the reader stopped at a real end-of-stream marker" apart from "the reader ran into
+    # EOF" (pyarrow accepts EOF in place of the marker; on a live connection EOF never comes and the server waits).
+    src = io.BytesIO(data + b"\x5a" * 64)
     try:
         reader = ipc.open_stream(src)
         batches = []
@@ -363,10 +365,10 @@ def _classify(data: bytes) -> str:
             batches.append(b)
     except Exception:  # noqa: BLE001 - any parse failure means "not a valid IPC stream"
         return "invalid"
-    if src.tell() != len(data):
+    if src.tell() < len(data):
         return "trailing"
-    if not data.endswith(b"\xff\xff\xff\xff\x00\x00\x00\x00"):
-        return "no_eos"  # pyarrow accepts EOF in place of the end-of-stream marker; on a live connection it never comes
+    if src.tell() > len(data) or not data.endswith(b"\xff\xff\xff\xff\x00\x00\x00\x00"):
+        return "no_eos"
     if len(batches) != 1:
         return "batches=" + str(len(batches))
     if batches[0].num_rows > 3:
